@@ -534,6 +534,11 @@ func (h *harness) runCkpt(lg *fixtureLog, label string, served []byte, present b
 
 // a returned checkpoint must carry a signature by the configured key over exactly its tree head
 func (h *harness) monCkpt(lg *fixtureLog, served []byte, cp torchwood.Checkpoint) string {
+	if cp.Extension != "" {
+		// the RFC 6962 tree head signature covers size, root and timestamp only: extension lines are
+		// content the configured key never signed
+		return fmt.Sprintf("FAILS:returned a checkpoint carrying %d bytes of extension lines, which the log key's signature does not cover", len(cp.Extension))
+	}
 	i := strings.LastIndex(string(served), "\n\n")
 	if i < 0 {
 		return "FAILS:returned a checkpoint from a note without signature block"
